@@ -135,6 +135,10 @@ func c20Class(errText string, panicked bool) string {
 		return "ok"
 	case strings.Contains(errText, "not found in type"):
 		return "key"
+	case strings.Contains(errText, "empty compiler passes file"), strings.Contains(errText, "empty veneers file"):
+		// a null / empty DOCUMENT (fix 4823a7e), not a rule entry: outside the key and rule-entry
+		// model (R is not compared)
+		return "semantic"
 	case strings.Contains(errText, "empty compiler pass"), strings.Contains(errText, "empty rule"):
 		return "empty"
 	case strings.Contains(errText, "yaml:"):
@@ -584,6 +588,11 @@ func init() {
 			{"pipeline", "merge-unknown", "debug: true\noutput:\n  <<: {zz_unknown: {a: 1}}\n  directory: out\n", "{ debug s output { zz_unknown { a s } directory s } }"},
 			{"veneers", "merge-unknown", "package: p\nbuilders:\n  - omit: {by_name: X, <<: {zz_unknown: ~}}\n", "{ package s builders [ { omit { by_name s zz_unknown n } } ] }"},
 			{"veneers", "unknown@record", "package: p\noptions:\n  - &r {omit: {by_name: A.b}}\n  - {rename: {by_name: A.b, as: c, zz_unknown: 1}}\n  - *r\n", "{ package s options [ { omit { by_name s } } { rename { by_name s as s zz_unknown s } } { omit { by_name s } } ] }"},
+		}
+		// null documents: rejected as "empty … file" by the compiler-passes and veneers loaders,
+		// loaded by the pipeline loader; no key verdict is involved (L=1, P=1)
+		for _, k := range []string{"pipeline", "compiler", "veneers"} {
+			cases = append(cases, sc{k, "null-document", "~\n", "n"})
 		}
 		for _, c := range cases {
 			cc := &c20Case{Kind: c.kind, What: c.what, Key: c20Unknown, tokens: c.tokens, rawYAML: []byte(c.yaml)}
